@@ -127,6 +127,7 @@ def main():
     if a.replay:
         rp, o = native(json.load(open(a.replay))['case']); print(o); sys.exit(1 if rp else 0)
     rep = R.Report('C01', a.tier, seed); timeout = solve.TIMEOUT_MS[a.tier]
+    R.prefetch_native('props.c01_native', ['bounded', str(seed), a.tier])      # the stand-in runs while the obligations are discharged
     u = DCm.Dist()
     for k in (C3.CPA + '::CPADistinguisherMixin._update', C3.CPA + '::CPADistinguisherMixin._initialize', C3.DPA + '::DPADistinguisherMixin._update', C3.DPA + '::DPADistinguisherMixin._initialize',
               KN.PM + '::PartitionedDistinguisherMixin._accumulate_core_1', KN.PM + '::PartitionedDistinguisherMixin._accumulate_core_2', KN.PM + '::PartitionedDistinguisherMixin._initialize_accumulators', KN.PM + '::PartitionedDistinguisherMixin._compute',
